@@ -85,7 +85,7 @@ class TriangleSet(primitive.Primitive):
 
         if len(sources) == 0:
             raise DaeIncompleteError('A triangle set needs at least one input for vertex positions')
-        if 'VERTEX' not in sources:
+        if not sources.get('VERTEX'):
             raise DaeIncompleteError('Triangle set requires vertex input')
 
         max_offset = max([max([input[0] for input in input_type_array])
@@ -229,6 +229,8 @@ class TriangleSet(primitive.Primitive):
 
         extendfunc = _indexExtendFunctions[tag_bare]
 
+        if not source_array.get('VERTEX'):
+            raise DaeIncompleteError('Triangle set requires vertex input')
         max_offset = max(input[0] for input_type_array in source_array.values()
                          for input in input_type_array)
 
